@@ -156,6 +156,7 @@ func (p *Parser) ParseWithRecoveryFromModelTokens(tokens []models.TokenWithSpan)
 func (p *Parser) parseWithRecovery(tokens []token.Token) ([]ast.Statement, []error) {
 	p.tokens = tokens
 	p.currentPos = 0
+	p.positions = nil // no position mapping for this input: never report locations of an earlier one
 	if len(tokens) > 0 {
 		p.currentToken = tokens[0]
 	}
